@@ -41,6 +41,8 @@ def bounded_permutation_sign(chk):
 
 def run(chk):
     chk.level = "proof"
+    from props import native_diff
+    native_diff.run(chk, "C07")
     from props import backend_conformance
     backend_conformance.run(chk, "C07", names=('slogdet', 'lu', 'cholesky', 'prod', 'sum', 'log'))
     chk.assume("sign*exp(logabs) = det is carried by the ghost pair (sgn, ld) = (phase of det, log|det|); exp/log themselves never "
